@@ -102,17 +102,15 @@ Section WithAES.
   Qed.
 
   Lemma kw_family_roundtrip v alg kb pt ct tag :
-    bytes_ok pt = true -> 8 <= length pt ->
-    encrypt_kw alg kb pt = Ok (ct, tag) -> decrypt_kw v alg kb ct = Ok pt.
+    bytes_ok pt = true ->
+    encrypt_kw Fixed alg kb pt = Ok (ct, tag) -> decrypt_kw v alg kb ct = Ok pt.
   Proof.
-    intros Hokpt Hlen. unfold encrypt_kw, decrypt_kw.
+    intros Hokpt. unfold encrypt_kw, decrypt_kw.
     destruct (Nat.eqb (len kb) (expected_key_size alg)); cbn [negb]; [|discriminate].
     destruct (aes_key_ok kb); cbn [negb]; [|discriminate].
-    destruct (Nat.eq_dec (length pt mod 8) 0) as [Hmod|Hmod].
-    - destruct (aeskw_roundtrip v kb pt (aes_correct kb) Hmod Hlen Hokpt) as (c & Hw & Hu).
-      rewrite Hw. intro H. apply ok_inj in H. injection H as <- _. exact Hu.
-    - unfold aeskw_wrap, kw_wrap, len.
-      destruct (Nat.eqb_spec (length pt mod 8) 0); [contradiction|]. cbn [negb]. discriminate.
+    destruct (aeskw_wrap Fixed kb pt) as [c|e|] eqn:Hw; try discriminate.
+    intro H. apply ok_inj in H. injection H as <- _.
+    exact (aeskw_roundtrip v kb pt c (aes_correct kb) Hokpt Hw).
   Qed.
 
   Lemma chacha_family_roundtrip x kb nonce aad pt ct tag :
@@ -129,25 +127,23 @@ Section WithAES.
     rewrite Henc in Henc'. apply ok_inj in Henc'. injection Henc' as <- <-. exact Hdec.
   Qed.
 
-  (* DecryptSymmetric inverts EncryptSymmetric: every algorithm name, every key, nonce,
-     associated data and plaintext made of bytes - whenever encryption succeeds at all.
-     Key wrap needs at least one 64-bit block of key data (the empty input wraps to the bare
-     IV, which Unwrap refuses). *)
+  (* DecryptSymmetric inverts EncryptSymmetric on the current tree: every algorithm name, every
+     key, nonce, associated data and plaintext made of bytes - whenever encryption succeeds at
+     all; no special case (empty key data is refused by key wrap, so it never "succeeds"). *)
   Theorem symmetric_roundtrip (vkw vopen : variant) (alg : string) (key : keyobj)
           (nonce aad pt ct tag : list N) :
     bytes_ok nonce = true -> bytes_ok pt = true ->
-    (sym_family_of alg = Some FKw -> 8 <= length pt) ->
-    encrypt_symmetric alg key nonce aad pt = Ok (ct, tag) ->
+    encrypt_symmetric Fixed alg key nonce aad pt = Ok (ct, tag) ->
     decrypt_symmetric vkw vopen alg key nonce tag aad ct = Ok pt.
   Proof.
-    intros Hokn Hokpt Hkw. unfold encrypt_symmetric, decrypt_symmetric.
+    intros Hokn Hokpt. unfold encrypt_symmetric, decrypt_symmetric.
     destruct key as [kb| | | | | |]; try discriminate.
     destruct (sym_family_of alg) as [[]|]; try discriminate.
     - now apply cbc_family_roundtrip.
     - now apply cbc_family_roundtrip.
     - apply gcm_family_roundtrip.
     - now apply cbchmac_family_roundtrip.
-    - apply kw_family_roundtrip; auto.
+    - now apply kw_family_roundtrip.
     - apply chacha_family_roundtrip.
     - apply chacha_family_roundtrip.
   Qed.
@@ -155,6 +151,6 @@ End WithAES.
 
 (* non-vacuity: an encryption that succeeds (RFC 3394 4.1 through the A128KW name) *)
 Example symmetric_roundtrip_nonvacuous :
-  exists ct, encrypt_symmetric "A128KW"%string (KOct (hex "000102030405060708090A0B0C0D0E0F")) [] []
+  exists ct, encrypt_symmetric Fixed "A128KW"%string (KOct (hex "000102030405060708090A0B0C0D0E0F")) [] []
                (hex "00112233445566778899AABBCCDDEEFF") = Ok (ct, []).
 Proof. eexists. vm_compute. reflexivity. Qed.
